@@ -29,6 +29,11 @@ def float_jacobians(p, cse, e):
         ekf = pyh.build_ekf_float(p, e, cse=cse, pn=pn, sn=sn, calmap=calmap)
         for k_ in list(calmap):
             calmap[k_] = calmap[k_] * 3.0 + 1.0  # the caller reuses its dictionary afterwards
+        # a second, different filter with the same sensor keys is built and used after the one under test
+        decoy = pyh.build_ekf_float(pyh.decoy_program(p), e, cse=cse, pn=pn, sn=sn, calmap=pyh.float_calibration_map(p, e))
+        dst = decoy.State(**{s: float(e[s]) * 0.5 + 0.125 for s in p.state})
+        for key in p.sensors:
+            decoy.sensor_jacobian(key, dst)
         st = ekf.State(**{s: float(e[s]) for s in p.state})
         ct = ekf.Control(**{c: float(e[c]) for c in p.control})
         out = {"G": ekf.process_jacobian(float(e[p.dt]), st, ct), "V": ekf.control_jacobian(float(e[p.dt]), st, ct)}
